@@ -78,3 +78,35 @@ package ledger
 
 //@ assumed func slices.Compact(s []string) (r []string)
 //@   ensures forall v string :: {countStr(r, v)} containsStr(r, v) == containsStr(s, v)
+
+// ---- metadata.go ---------------------------------------------------------------------------------
+
+//@ define revertsKey() string = "com.formance.spec/" + "state/reverts"
+
+//@ assumed func (m1 metadata.Metadata) Merge(m2 metadata.Metadata) (r metadata.Metadata)
+//@   ensures r != nil
+//@   ensures forall k string :: {has(r, k)} (has(m2, k) && m2[k] != "") ==> has(r, k) && r[k] == m2[k]
+//@   ensures forall k string :: {has(r, k)} !has(m2, k) ==> has(r, k) == has(m1, k) && r[k] == m1[k]
+
+//@ func SpecMetadata(name string) (r string)
+//@   property C15
+//@   ensures r == "com.formance.spec/" + name
+
+//@ func RevertMetadataSpecKey() (r string)
+//@   property C15
+//@   ensures r == revertsKey()
+
+//@ func ComputeMetadata(key string, value string) (r metadata.Metadata)
+//@   property C15
+//@   ensures r != nil && has(r, key) && r[key] == value
+//@   ensures forall k string :: {has(r, k)} k != key ==> !has(r, k)
+
+//@ func RevertMetadata(txID uint64) (r metadata.Metadata)
+//@   property C15
+//@   ensures r != nil && has(r, revertsKey()) && r[revertsKey()] == str(txID)
+//@   ensures forall k string :: {has(r, k)} k != revertsKey() ==> !has(r, k)
+
+//@ func MarkReverts(m metadata.Metadata, txID uint64) (r metadata.Metadata)
+//@   property C15
+//@   ensures r != nil && has(r, revertsKey()) && r[revertsKey()] == str(txID)
+//@   ensures forall k string :: {has(r, k)} k != revertsKey() ==> has(r, k) == has(m, k) && r[k] == m[k]
